@@ -301,6 +301,12 @@ GENERIC = [
     ("list", "bare", lambda k: [k, k + 1]),
     ("dict", "bare", lambda k: {"a": k}),
     ("foreign", "bare", lambda k: Foreign(k)),
+    # a value is a (data, context) pair only if it is a TUPLE of two items with a dict second: lists of the same shape are data
+    ("list_pair_text", "bare", lambda k: ["list text %d" % k, {"output": {"filename": "leak%d" % k}}]),
+    ("list_pair_hist", "bare", lambda k: [hist_num(k), {"tag": k, "output": {"filetype": "csv"}}]),
+    ("list_pair_tex", "bare", lambda k: ["out/leak%d.tex" % k, {"output": {"filetype": "tex", "filepath": "out/leak%d.tex" % k}}]),
+    ("list_pair_pdf", "bare", lambda k: ["out/leak%d.pdf" % k, {"output": {"filetype": "pdf"}}]),
+    ("list_pair_group", "bare", lambda k: [[k, k + 1], {"group": [{"a": 1}, {"a": 2}]}]),
     ("pair_empty_ctx", "pair", lambda k: (k, {})),
     ("pair_unrelated", "pair", lambda k: (k + 0.25, {"unrelated": {"tag": k}, "variable": {"name": "v%d" % k}})),
     ("pair_foreign", "pair", lambda k: (Foreign(k), {"y": k})),
